@@ -265,6 +265,49 @@ def euler_variant_cell():
                 lambda c: [L.euler_variants()[c["variant"]][1]], quick=460, thorough=6000)
 
 
+def euler_band_cell():
+    """exp/log through the body 3-2-1 Euler parameterisation for rotations whose pitch lies INSIDE the gimbal band of either
+    pole (|pitch -+ pi/2| < 1e-3): exp(x) represents expm(x) and exp(log(X)) = X to the documented band accuracy (seed C03-r6A:
+    negative-pole yaw off by pi)."""
+    import casadi as ca
+    from hypothesis import strategies as st
+
+    @st.composite
+    def band_case(draw):
+        return {"psi": draw(gens.fl(-PI, PI)), "phi": draw(gens.fl(-PI, PI)), "pole": draw(st.sampled_from([-1, 1])),
+                "delta": draw(st.sampled_from([0.0, 1e-9, 1e-6, 1e-4, 5e-4, 9e-4]))}
+
+    def check(case):
+        require(case["pole"] in (-1, 1) and 0 <= case["delta"] <= 9e-4 and abs(case["psi"]) <= PI and abs(case["phi"]) <= PI)
+        from cyecca.lie.group_so3 import SO3EulerB321, so3
+        R = ref.euler321_to_R([case["psi"], case["pole"] * (PI / 2 - case["delta"]), case["phi"]])
+        w = ref.log_SO3(R)
+        th = float(np.linalg.norm(w))
+        require(th <= PI - 1e-2)
+        with cy.quiet():
+            X = so3.elem(ca.DM(w)).exp(SO3EulerB321)
+            M = np.array(ca.DM(X.to_Matrix()), float)
+            w2 = np.array(ca.DM(X.log().param), float).reshape(-1)
+        if not (np.all(np.isfinite(M)) and np.all(np.isfinite(w2))):
+            raise Violation("SO3EulerB321 in the gimbal band: non-finite exp/log", M=M.tolist(), log=w2.tolist(), **case)
+        d1 = ref.rot_dist(M, R)
+        if d1 > L.BAND_TOL:
+            raise Violation("SO3EulerB321 exp(x) inside the gimbal band (pole %+d) differs from expm(x) by %.3e rad > %.1e"
+                            % (case["pole"], d1, L.BAND_TOL), **case)
+        a = float(np.linalg.norm(w2))
+        R2 = ref.rodrigues(w2 / a, a) if a > 0 else np.eye(3)
+        d2 = ref.rot_dist(R2, M)
+        tol = 1e-9 / max(PI - th, 1e-2) + 1e-9
+        if d2 > tol:
+            raise Violation("SO3EulerB321 inside the gimbal band (pole %+d): exp(log(X)) differs from X by %.3e rad (tol %.1e)"
+                            % (case["pole"], d2, tol), log=w2.tolist(), **case)
+        if a > PI + 1e-9:
+            raise Violation("SO3EulerB321 inside the gimbal band: |log| = %.12g exceeds pi" % a, **case)
+
+    return Cell("SO3EulerB321/band_explog", band_case(), check, lambda c: abs(c["phi"]) > 1e-2 and abs(c["psi"]) > 1e-2,
+                lambda c: ["pole:%+d" % c["pole"], "delta:%g" % c["delta"]], quick=300, thorough=5000)
+
+
 def build(tier):
     cells = []
     for gi in L.all_groups(tier):
@@ -272,6 +315,7 @@ def build(tier):
     for fam in FAMILIES:
         cells.append(crossrep_cell(fam, tier))
     cells.append(euler_variant_cell())
+    cells.append(euler_band_cell())
     return {
         "cells": cells,
         "rule": RULE,
